@@ -7,6 +7,7 @@ package main
 // of these properties between the two harness binaries.
 
 import (
+	lib "github.com/whawty/auth/store"
 	"bytes"
 	"fmt"
 	"strings"
@@ -30,7 +31,96 @@ func init() {
 // ---------------------------------------------------------------------------------
 // C16: the agent refuses to run any command on a directory that fails the check
 
+// propC16Running: a running agent with concurrent clients on all its queues. Whatever the
+// interleaving, the directory stays valid: one file per user, the check passes, and once
+// everything has been answered the work area is empty. The only administrator that is never
+// a target keeps the "does not remove or demote the last administrator" premise true.
+func propC16Running(r *Run) {
+	inAgentBubble(r, func(w *AWorld) {
+		cfg := GenConfig(r, "/srv/whawty/base")
+		model := w.populateDir(cfg, 2+r.Choose("nusers", 3), false)
+		users := sortedKeysA(model)
+		a, err := w.bootAgent(cfg, []string{"", "local"}[r.Choose("upgrades", 2)], "", "", "")
+		if err != nil {
+			r.Fail("harness/boot", "%v", err)
+		}
+		targets := []string{"newbie", "zed"}
+		for _, u := range users {
+			if u != "root" {
+				targets = append(targets, u)
+			}
+		}
+		ncl := 2 + r.Choose("nclients", 5)
+		for i := 0; i < ncl; i++ {
+			var plan []*Call
+			for k := 0; k < 1+r.Choose("ncalls", 3); k++ {
+				u := targets[r.Choose("target", len(targets))]
+				c := &Call{Via: "agent", Agent: a.idx, User: u}
+				switch r.Choose("call-kind", 6) {
+				case 0, 1:
+					c.Kind, c.PW, c.Admin = "add", fmt.Sprintf("added-%d-%d", i, k), r.Choose("admin", 2) == 1
+				case 2:
+					c.Kind, c.PW = "update", fmt.Sprintf("updated-%d-%d", i, k)
+				case 3:
+					c.Kind, c.Admin = "set-admin", r.Choose("admin", 2) == 1
+				case 4:
+					c.Kind = "remove"
+				case 5:
+					c.Kind, c.PW = "authenticate", "whatever"
+				}
+				plan = append(plan, c)
+			}
+			w.addClient(plan)
+		}
+		invariant := func(when string, idle bool) {
+			names := map[string][]string{}
+			for _, n := range w.fs.Names(cfg.BaseDir) {
+				if n == ".tmp" {
+					continue
+				}
+				for _, ext := range []string{".user", ".admin"} {
+					if strings.HasSuffix(n, ext) {
+						names[strings.TrimSuffix(n, ext)] = append(names[strings.TrimSuffix(n, ext)], n)
+					}
+				}
+			}
+			for _, u := range sortedKeysA(names) {
+				if len(names[u]) > 1 {
+					r.Fail("running/two-files-for-one-user", "%s: %v exist together", when, names[u])
+				}
+			}
+			if idle {
+				if left := w.fs.Names(cfg.BaseDir + "/.tmp"); len(left) > 0 {
+					r.Fail("running/work-area-not-empty", "%s: every request has been answered, the work area still holds %v", when, left)
+				}
+				d, derr := lib.NewDirFromConfig(a.cfgPath)
+				if derr != nil {
+					r.Fail("harness/config", "%v", derr)
+				}
+				if cerr := d.Check(); cerr != nil {
+					r.Fail("running/directory-invalid", "%s: the consistency check fails: %v", when, cerr)
+				}
+			}
+		}
+		if r.Choose("fs-yields", 3) == 0 {
+			w.fsYields()
+		}
+		w.runLoop(loopOpts{maxSteps: 1500, wClient: 3, wLoop: 3, onQuiet: func() { invariant("while requests are in flight", false) }})
+		if wedge := w.drain(nil); wedge != "" {
+			r.FailOther("C10", wedgeSignature(wedge), "%s", wedge)
+			return
+		}
+		invariant("after all requests were answered", true)
+		r.Count("probe:running-agent-directory-runs")
+		r.Nontrivial(fmt.Sprintf("running|%d|%s", ncl, cfg.Desc()))
+	})
+}
+
 func propC16A(r *Run) {
+	if r.Choose("running-agent-clause", 3) == 0 {
+		propC16Running(r)
+		return
+	}
 	inAgentBubble(r, func(w *AWorld) {
 		cfg := GenConfig(r, "/srv/whawty/base")
 		def := cfg.SetMap()[cfg.Default]
